@@ -444,6 +444,17 @@ impl State {
         let all_obs = self.all_observers.borrow();
         if let Some(obs) = all_obs.get(&token.observer_id()) {
             obs.unsubscribe(token).unwrap();
+            return;
+        }
+        drop(all_obs);
+        // An observer that has not been through a stabilise yet is only in new_observers.
+        let new_obs = self.new_observers.borrow();
+        if let Some(obs) = new_obs
+            .iter()
+            .filter_map(Weak::upgrade)
+            .find(|obs| obs.id() == token.observer_id())
+        {
+            obs.unsubscribe(token).unwrap();
         }
     }
 
